@@ -227,6 +227,12 @@ func runPair(c Case, src string, sum *Summary, add func(Mismatch)) {
 				if c.Pair.Core {
 					core.Import(cp)
 				}
+			case "NestedDeepCopy":
+				// a scope nested in the base is deep-copied; the host then binds globals through the copy: they belong to the copy's chain
+				cp = base.NewEnv().DeepCopy()
+				cp.DefineGlobal("hostg", int64(41))
+				cp.DefineGlobalType("HostT", int64(0))
+				cp.NewEnv().DefineGlobal("hostg2", int64(42))
 			default:
 				cp = base.DeepCopy()
 			}
@@ -238,7 +244,7 @@ func runPair(c Case, src string, sum *Summary, add func(Mismatch)) {
 	sum.Runs += 4
 	sum.Compared++
 	if !vmrun.SameObs(alone, after, false) {
-		add(Mismatch{ID: c.ID, Kind: "isolation", What: fmt.Sprintf("a run in %s (%q) changed what the environment itself yields afterwards", map[string]string{"Copy": "a Copy of the environment", "DeepCopy": "a DeepCopy of the environment", "Fresh": "another, brand-new environment"}[c.Pair.How], c.Pair.A), Src: c.Pair.S0 + " ;; " + src, Exp: alone, Got: after})
+		add(Mismatch{ID: c.ID, Kind: "isolation", What: fmt.Sprintf("a run in %s (%q) changed what the environment itself yields afterwards", map[string]string{"Copy": "a Copy of the environment", "DeepCopy": "a DeepCopy of the environment", "Fresh": "another, brand-new environment", "NestedDeepCopy": "a DeepCopy of a scope nested in the environment, with host-defined globals"}[c.Pair.How], c.Pair.A), Src: c.Pair.S0 + " ;; " + src, Exp: alone, Got: after})
 	}
 }
 
